@@ -9,7 +9,10 @@ Inductive c19_case :=
     (* a loop nest running the intersections fs one after the other (outer loop coordinates
        f_id, lexicographically increasing); each schedule is the list of numbers of
        consecutive intersections after which the traces are consumed and fed to the models *)
-| CS (t u : tree) (depth : nat) (radix lat : option Z).
+| CS (t u : tree) (depth : nat) (radix lat : option Z)
+| CL (fs : list fpair) (scheds : list (list nat)).
+    (* as CI, but every intersection is Fiber.intersection(a, b, style="leader-follower") with a
+       the leader; only the two leader-follower models are fed *)
     (* numSwaps of tensor t and of u (same coordinates, other payload values);
        radix None = float("inf"), lat None = "N" *)
 
@@ -31,6 +34,15 @@ Definition sched_model (fs : list fpair) (lens : list nat) : V :=
   | _, _, _, _ => Verr 1
   end.
 
+Definition lsched_model (fs : list fpair) (lens : list nat) : V :=
+  let all := map f_id fs in
+  let d := depth_of fs in
+  let segs := split_by lens fs in
+  match lfs_feed false all d segs, lfs_feed true all d segs with
+  | Some la, Some lb => VL [Vl VZ la; Vl VZ lb]
+  | _, _ => Verr 1
+  end.
+
 Definition c19_model (c : c19_case) : V :=
   match c with
   | CI fs scheds =>
@@ -40,6 +52,11 @@ Definition c19_model (c : c19_case) : V :=
         VL (map (sched_model fs) scheds)]
   | CS t u depth radix lat =>
     VL [Vo VZ (swaps_tree depth radix lat t); Vo VZ (swaps_tree depth radix lat u)]
+  | CL fs scheds =>
+    let all := map f_id fs in
+    let rows := lfs_batch_rows all fs in
+    VL [Vn (length (header (depth_of fs))); Vrows (fst rows); Vrows (snd rows);
+        VL (map (lsched_model fs) scheds)]
   end.
 
 (* ---- the property, from the raw coordinate lists *)
@@ -55,9 +72,16 @@ Definition sched_spec (fs : list fpair) (lens : list nat) : V :=
       Vl VZ (cum 0 (map (total presented) segs));
       Vl VZ (cum 0 (map (total (fun a b => presented b a)) segs))].
 
+(* leader-follower style: the model of either operand has counted, after every call, one
+   attempt per element the leader presented in the intersections of the batches so far *)
+Definition lsched_spec (fs : list fpair) (lens : list nat) : V :=
+  let segs := split_by lens fs in
+  VL [Vl VZ (cum 0 (map (total led) segs)); Vl VZ (cum 0 (map (total led) segs))].
+
 Definition c19_holds (c : c19_case) (o : V) : bool :=
   match c, o with
   | CI fs scheds, VL [_; _; _; VL rs] => V_eqb (VL rs) (VL (map (sched_spec fs) scheds))
+  | CL fs scheds, VL [_; _; _; VL rs] => V_eqb (VL rs) (VL (map (lsched_spec fs) scheds))
   | CS t u depth radix lat, VL [VL [VZ x]; VL [VZ y]] =>
     Z.eqb x y
     && match lat with
@@ -82,7 +106,7 @@ Definition sum_nat (l : list nat) : nat := fold_right Nat.add O l.
 Definition wf_fs (fs : list fpair) : bool :=
   forallb (fun p => Nat.eqb (length (f_id p)) (depth_of fs)) fs
   && fids_sorted (map f_id fs)
-  && forallb (fun p => ssorted (occ (f_a p)) && ssorted (occ (f_b p))) fs.
+  && forallb (fun p => ssorted (occ (f_d p) (f_a p)) && ssorted (occ (f_d p) (f_b p))) fs.
 
 Definition wf_sched (n : nat) (lens : list nat) : bool :=
   forallb (fun k => Nat.ltb 0 k) lens && Nat.eqb (sum_nat lens) n.
@@ -93,6 +117,7 @@ Definition c19_wf (c : c19_case) : bool :=
   | CS t u depth radix lat =>
     depth_ok (depth + 2) t && same_shape t u
     && match radix with Some r => Z.leb 2 r | None => true end
+  | CL fs scheds => true
   end.
 
 Definition c19_checker : checker c19_case :=
